@@ -1,5 +1,5 @@
 /*VERIF
-{ "tu": "src/time.c", "enforce": "_dispatch_clock_and_value_to_time", "seq": true, "timeout": 120,
+{ "tu": "src/time.c", "enforce": "_dispatch_clock_and_value_to_time", "props": ["C12", "C08"], "seq": true, "timeout": 120,
   "roots": ["_dispatch_time_to_clock_and_value"],
   "assumes": ["wall clock reading in [3, 2^62-2] ns"] }
 VERIF*/
